@@ -371,6 +371,11 @@ func runC19(res *Result, tier string, seed int64, replay string) {
 			// shows it) next to a real Outlook-only comment
 			`<!--[if !mso]><!--><p class="ka">revealed</p><!--<![endif]-->`, `<!--[if mso]><p class="zz">hidden</p><![endif]--><!--[if !mso]><!--><span class="kb">shown</span><!--<![endif]-->`,
 			`<p id="a" class="ka" hidden data-e="">mixed</p>`, `<P Class="ka" STYLE="Top:0">case</P>`, `<u class="ka" style="">empty style</u>`, `<em class="ka" style="color:blue">no semicolon</em>`,
+			// an author style that CONTAINS the text of a targeted declaration — as the tail of another property, as the very same
+			// declaration, in another letter case: the rule's declarations are appended all the same
+			`<p class="ka" style="background-color:#111111">tail</p>`, `<p class="ka" style="border-color:#111111;x-font-weight:bold;">tails</p>`, `<p class="ka" style="color:#111111;">same</p>`,
+			`<p class="ka kb" style="color:#111111;font-weight:bold;text-decoration:underline;">all three</p>`, `<span class="kb" style='text-decoration:underline'>same, no semicolon</span>`,
+			`<p class="ka" style="COLOR:#111111;">upper</p>`,
 		}
 		carriers := []struct{ name, open, close string }{
 			{"mj-text", "<mj-text>", "</mj-text>"}, {"mj-button", `<mj-button href="u">`, "</mj-button>"},
@@ -571,6 +576,8 @@ func c19TagCorrespondence(res *Result, drv *DriverPool, tier string, seed int64)
 		`<p class="ka" class="kb">`, `<p style="a:b" class="ka" style="c:d">`, `<p class=ka/>`, `<p class="ka"/ >`, `<p class="ka" / >`, `<br/>`, `<br class=kb/>`, `<p class>`, `<p class=>`, `<p class="">`,
 		`<p class="ka" style>`, `<p class="ka" style=>`, `<p class="ka" style=' '>`, `< p class="ka">`, `<p =x class="ka">`, `<p class="ka" =>`, `<p class="ka`, `<p class="ka" x=">">`, `<>`, `<`, `<p>`, `<p >`, `<p/>`,
 		`<p class="ka" a=b"c>`, `<p class='ka" x='>`, `<p	class="ka"	style="x:y;">`, `<p class="ka  kb	ka">`, `<svg:rect class="ka" xlink:href="#a"/>`, `<p class="ka" style="x:y ; ">`, `<p class="ka" style=";">`,
+		`<p class="ka" style="background-color:#111111">`, `<p class="ka" style="border-color:#111111;x-font-weight:bold;">`, `<p class="ka" style="color:#111111;">`, `<p class="ka" style="color:#111111;font-weight:bold;">`,
+		`<p class="ka kb" style="color:#111111;font-weight:bold;text-decoration:underline;">`, `<span class="kb" style='text-decoration:underline'>`, `<p class="ka" style="COLOR:#111111;">`, `<p class="kb ka" style="font-weight:bold">`,
 	}
 	n := 1500
 	if tier == "thorough" {
@@ -592,7 +599,7 @@ func c19TagCorrespondence(res *Result, drv *DriverPool, tier string, seed int64)
 					b.WriteString("=" + r.Pick([]string{"ka", "kb", "x", "http://x/a", "a:b;", "a/b/"}))
 				default:
 					q := r.Pick([]string{"\"", "'"})
-					b.WriteString(r.Pick([]string{"=", " = ", "= ", " ="}) + q + r.Pick([]string{"ka", "kb", "ka kb", "kb  ka", "zz", "", "a:b", "a:b;", " c:d ; ", "x > y", "it's", "say \"hi\""}) + q)
+					b.WriteString(r.Pick([]string{"=", " = ", "= ", " ="}) + q + r.Pick([]string{"ka", "kb", "ka kb", "kb  ka", "zz", "", "a:b", "a:b;", " c:d ; ", "x > y", "it's", "say \"hi\"", "background-color:#111111", "color:#111111;", "x-font-weight:bold;text-decoration:underline"}) + q)
 				}
 			}
 			b.WriteString(r.Pick([]string{">", " >", "/>", " />", "/ >", "\n>"}))
